@@ -345,6 +345,39 @@ example : (1, "b", 1) ∈ (releaseAndSubmit (sweepQueue exG exReady)).launched :
 example : validPrereqs exG 1 "b" ((PreSpec.some [(1, "a", "started")]).atoms exG) = [] ∧
     view (setCmd exG (init exG) (1, "b") [] (.some [(1, "a", "started")]) .default false) = view (init exG) := by decide
 
+/-- one task with one execution retry of a non-zero delay -/
+def exR : Graph :=
+  { icp := 1, fcp := 1, start := 1, runahead := 1, seqs := [[1]], stopPoint := some 1,
+    tasks := [
+      { name := "a", insts := [(1, { pre := [], sui := [], children := [], nextParentless := none })],
+        firstParentless := some 1, completion := CE.var "succeeded", outputs := stdOut, required := ["succeeded"],
+        execRetries := 1, execRetryLong := true }] }
+
+/-- `1/a` ran and failed; two more main loops -/
+def exWait : State :=
+  [Op.loop, .subres 1 "a" true 1, .msg 1 "a" 1 "started", .msg 1 "a" 1 "failed", .loop, .loop].foldl (step exR) (init exR)
+
+def xview (s : State) : List (Int × String × Status × List (String × Bool)) :=
+  s.pool.map fun x => (x.pt, x.name, x.status, x.xLabels)
+
+-- the failed task waits behind its retry xtrigger: the main loop launches nothing
+example : xview exWait = [(1, "a", .waiting, [("_cylc_retry_1_a", false)])] ∧ exWait.launched = [] := by decide
+
+-- `cylc set --pre=xtrigger/_cylc_retry_1_a 1/a` (also `xtrigger/all`) satisfies it, and the next main loop submits the retry
+example : xview (step exR exWait (.set [(1, "a")] [] (.some [] ["_cylc_retry_1_a"]) .default false)) =
+      [(1, "a", .waiting, [("_cylc_retry_1_a", true)])] ∧
+    (step exR (step exR exWait (.set [(1, "a")] [] (.some [] ["_cylc_retry_1_a"]) .default false)) .loop).launched =
+      [(1, "a", 2)] ∧
+    (step exR (step exR exWait (.set [(1, "a")] [] (.some [] ["all"]) .default false)) .loop).launched =
+      [(1, "a", 2)] := by decide
+
+-- an xtrigger that `1/a` does not carry, and `--pre=all` (task prerequisites only), change nothing
+example : xview (step exR exWait (.set [(1, "a")] [] (.some [] ["_cylc_submit_retry_1_a"]) .default false)) =
+      [(1, "a", .waiting, [("_cylc_retry_1_a", false)])] := by decide
+
+example : xview (step exR exWait (.set [(1, "a")] [] .all .default false)) =
+      [(1, "a", .waiting, [("_cylc_retry_1_a", false)])] := by decide
+
 /-- **recorded finding `set-submit-failed-ignored`**: "setting outputs marks those outputs complete and spawns their
 children" is false for the output `submit-failed` on the unrepaired code (`setSubmitFailedWorks = false`, probed
 from the live source): the command changes nothing in the pool.  With the repair (findings/C29-fix-1.diff) the
